@@ -221,8 +221,7 @@ func (n *NumberNode) unmarshal(props JSONNode) error {
 
 // UnmarshalJSON converts JSON bytes to a Number node.
 func (n *NumberNode) UnmarshalJSON(data []byte) error {
-	var props JSONNode
-	err := json.Unmarshal(data, &props)
+	props, err := unmarshalJSONNode(data)
 	if err != nil {
 		return err
 	}
@@ -261,8 +260,7 @@ func (n *DurationNode) unmarshal(props JSONNode) error {
 
 // UnmarshalJSON converts JSON bytes to a DurationNode.
 func (n *DurationNode) UnmarshalJSON(data []byte) error {
-	var props JSONNode
-	err := json.Unmarshal(data, &props)
+	props, err := unmarshalJSONNode(data)
 	if err != nil {
 		return err
 	}
@@ -338,8 +336,7 @@ func (n *BoolNode) unmarshal(props JSONNode) error {
 
 // UnmarshalJSON converts JSON bytes to a BoolNode
 func (n *BoolNode) UnmarshalJSON(data []byte) error {
-	var props JSONNode
-	err := json.Unmarshal(data, &props)
+	props, err := unmarshalJSONNode(data)
 	if err != nil {
 		return err
 	}
@@ -420,8 +417,7 @@ func (n *UnaryNode) unmarshal(props JSONNode) error {
 
 // UnmarshalJSON converts JSON bytes to a UnaryNode
 func (n *UnaryNode) UnmarshalJSON(data []byte) error {
-	var props JSONNode
-	err := json.Unmarshal(data, &props)
+	props, err := unmarshalJSONNode(data)
 	if err != nil {
 		return err
 	}
@@ -507,8 +503,7 @@ func (n *BinaryNode) unmarshal(props JSONNode) error {
 
 // UnmarshalJSON converts JSON bytes to a BinaryNode
 func (n *BinaryNode) UnmarshalJSON(data []byte) error {
-	var props JSONNode
-	err := json.Unmarshal(data, &props)
+	props, err := unmarshalJSONNode(data)
 	if err != nil {
 		return err
 	}
@@ -641,8 +636,7 @@ func (d *DBRPNode) unmarshal(props JSONNode) error {
 
 // UnmarshalJSON converts JSON bytes to a DBRPNode
 func (d *DBRPNode) UnmarshalJSON(data []byte) error {
-	var props JSONNode
-	err := json.Unmarshal(data, &props)
+	props, err := unmarshalJSONNode(data)
 	if err != nil {
 		return err
 	}
@@ -715,8 +709,7 @@ func (n *DeclarationNode) unmarshal(props JSONNode) error {
 
 // UnmarshalJSON converts JSON bytes to a DeclarationNode
 func (n *DeclarationNode) UnmarshalJSON(data []byte) error {
-	var props JSONNode
-	err := json.Unmarshal(data, &props)
+	props, err := unmarshalJSONNode(data)
 	if err != nil {
 		return err
 	}
@@ -794,8 +787,7 @@ func (n *TypeDeclarationNode) unmarshal(props JSONNode) error {
 
 // UnmarshalJSON converts JSON bytes to a TypeDeclarationNode
 func (n *TypeDeclarationNode) UnmarshalJSON(data []byte) error {
-	var props JSONNode
-	err := json.Unmarshal(data, &props)
+	props, err := unmarshalJSONNode(data)
 	if err != nil {
 		return err
 	}
@@ -880,8 +872,7 @@ func (n *ChainNode) unmarshal(props JSONNode) error {
 
 // UnmarshalJSON converts JSON bytes to a ChainNode
 func (n *ChainNode) UnmarshalJSON(data []byte) error {
-	var props JSONNode
-	err := json.Unmarshal(data, &props)
+	props, err := unmarshalJSONNode(data)
 	if err != nil {
 		return err
 	}
@@ -964,8 +955,7 @@ func (n *IdentifierNode) unmarshal(props JSONNode) error {
 
 // UnmarshalJSON converts JSON bytes to a IdentifierNode
 func (n *IdentifierNode) UnmarshalJSON(data []byte) error {
-	var props JSONNode
-	err := json.Unmarshal(data, &props)
+	props, err := unmarshalJSONNode(data)
 	if err != nil {
 		return err
 	}
@@ -1033,8 +1023,7 @@ func (n *ReferenceNode) unmarshal(props JSONNode) error {
 
 // UnmarshalJSON converts JSON bytes to a ReferenceNode
 func (n *ReferenceNode) UnmarshalJSON(data []byte) error {
-	var props JSONNode
-	err := json.Unmarshal(data, &props)
+	props, err := unmarshalJSONNode(data)
 	if err != nil {
 		return err
 	}
@@ -1126,8 +1115,7 @@ func (n *StringNode) unmarshal(props JSONNode) error {
 
 // UnmarshalJSON converts JSON bytes to a StringNode
 func (n *StringNode) UnmarshalJSON(data []byte) error {
-	var props JSONNode
-	err := json.Unmarshal(data, &props)
+	props, err := unmarshalJSONNode(data)
 	if err != nil {
 		return err
 	}
@@ -1246,8 +1234,7 @@ func (n *ListNode) unmarshal(props JSONNode) error {
 
 // UnmarshalJSON converts JSON bytes to a ListNode
 func (n *ListNode) UnmarshalJSON(data []byte) error {
-	var props JSONNode
-	err := json.Unmarshal(data, &props)
+	props, err := unmarshalJSONNode(data)
 	if err != nil {
 		return err
 	}
@@ -1338,8 +1325,7 @@ func (n *RegexNode) unmarshal(props JSONNode) error {
 
 // UnmarshalJSON converts JSON bytes to a RegexNode
 func (n *RegexNode) UnmarshalJSON(data []byte) error {
-	var props JSONNode
-	err := json.Unmarshal(data, &props)
+	props, err := unmarshalJSONNode(data)
 	if err != nil {
 		return err
 	}
@@ -1430,8 +1416,7 @@ func (n *StarNode) unmarshal(props JSONNode) error {
 
 // UnmarshalJSON converts JSON bytes to a StarNode
 func (n *StarNode) UnmarshalJSON(data []byte) error {
-	var props JSONNode
-	err := json.Unmarshal(data, &props)
+	props, err := unmarshalJSONNode(data)
 	if err != nil {
 		return err
 	}
@@ -1552,8 +1537,7 @@ func (n *FunctionNode) unmarshal(props JSONNode) error {
 
 // UnmarshalJSON converts JSON bytes to a FunctionNode
 func (n *FunctionNode) UnmarshalJSON(data []byte) error {
-	var props JSONNode
-	err := json.Unmarshal(data, &props)
+	props, err := unmarshalJSONNode(data)
 	if err != nil {
 		return err
 	}
@@ -1656,8 +1640,7 @@ func (n *LambdaNode) unmarshal(props JSONNode) error {
 
 // UnmarshalJSON converts JSON bytes to a LambdaNode
 func (n *LambdaNode) UnmarshalJSON(data []byte) error {
-	var props JSONNode
-	err := json.Unmarshal(data, &props)
+	props, err := unmarshalJSONNode(data)
 	if err != nil {
 		return err
 	}
@@ -1734,8 +1717,7 @@ func (n *ProgramNode) unmarshal(props JSONNode) error {
 
 // UnmarshalJSON converts JSON bytes to a ProgramNode
 func (n *ProgramNode) UnmarshalJSON(data []byte) error {
-	var props JSONNode
-	err := json.Unmarshal(data, &props)
+	props, err := unmarshalJSONNode(data)
 	if err != nil {
 		return err
 	}
@@ -1811,8 +1793,7 @@ func (n *CommentNode) unmarshal(props JSONNode) error {
 
 // UnmarshalJSON converts JSON bytes to a CommentNode
 func (n *CommentNode) UnmarshalJSON(data []byte) error {
-	var props JSONNode
-	err := json.Unmarshal(data, &props)
+	props, err := unmarshalJSONNode(data)
 	if err != nil {
 		return err
 	}
